@@ -1,3 +1,3 @@
 From Coq Require Import List Extraction ExtrOcamlBasic.
 Require Import RV.model.VmConc.
-Extraction "vmconc_model.ml" analyse.
+Extraction "vmconc_model.ml" analyse k_current k_noclone k_textual k_tryrecovers k_wakesilent.
